@@ -188,7 +188,13 @@ def replay_atmos(col, case):
                 qs = np.ascontiguousarray(np.moveaxis(qs_moved, 0, axis))
                 one = A.column_relative_humidity(qs.copy(), pp.copy(), Tf.copy(), axis=axis)
                 quarter = A.column_relative_humidity(0.25 * qs, pp.copy(), Tf.copy(), axis=axis)
+                # the same axis counted from the end
+                neg = A.column_relative_humidity(qs.copy(), pp.copy(), Tf.copy(), axis=axis - len(shape))
             col.count(1)
+            if np.shape(neg) != np.shape(one) or not np.array_equal(np.asarray(neg), np.asarray(one)):
+                col.violation("crh-negative-axis-differs-rank%d-axis%d" % (len(shape), axis),
+                              dict(rep, shape=list(shape), axis=axis - len(shape), expected=np.asarray(one).tolist(),
+                                   observed=np.asarray(neg).tolist()))
             want_shape = tuple(d for i, d in enumerate(shape) if i != axis)
             if np.shape(one) != want_shape or not allclose(one, np.ones(want_shape), rel=1e-11) \
                     or not allclose(quarter, np.full(want_shape, 0.25), rel=1e-11):
